@@ -10,7 +10,7 @@ from . import registry
 from . import findings as F
 
 VERIF = K.VERIF
-EVID = os.path.join(VERIF, "evidence")
+EVID = os.environ.get("VERIF_EVIDENCE_DIR") or os.path.join(VERIF, "evidence")
 
 
 def main(argv=None):
